@@ -316,6 +316,13 @@ example :
     s.log.map (·.1) = [0, 0, 1, 1] ∧
     (s.ports 1).delivered = [⟨3, 3, 0, 0, 0xdeadbeef⟩, ⟨0, 4, 0, 0, 0xdeadbef0⟩] := by decide +kernel
 
+/-- ports of different data widths: a full-width write of a 16-byte port next to a full-width read of a 4-byte port -/
+example :
+    let x := seqSpec [⟨.write, 1, 32, 0, 0x0123456789abcdeffedcba9876543210, 16⟩, ⟨.read, 2, 44, 0, 0, 4⟩,
+                      ⟨.read, 3, 32, 0, 0, 16⟩] (fun _ => 0)
+    x.1 = [⟨1, 1, 0, 0, 0⟩, ⟨0, 2, 0, 0, 0x01234567⟩, ⟨0, 3, 0, 0, 0x0123456789abcdeffedcba9876543210⟩] ∧
+    x.2 47 = 0x01 ∧ x.2 48 = 0 := by decide +kernel
+
 example : amoFun 32 .min 0x80000000 1 = 0x80000000 ∧ amoFun 32 .minu 0x80000000 1 = 1 ∧
     amoFun 32 .max 0xffffffff 1 = 1 ∧ amoFun 32 .maxu 0xffffffff 1 = 0xffffffff ∧
     amoFun 32 .add 0xffffffff 2 = 1 := by decide
